@@ -53,6 +53,65 @@ def harness(ctx, binp, mode, pool, progs, args, timeout=1500):
     return parse(r.stdout), st
 
 
+# several areas, refused allocations, recycled structures (mode areas of the harness, spec/Areas_Trace.tla):
+# (pool, programs, pb quick, pb thorough)
+AREAS = [(2, "F,A", 3, 4), (2, "R,R", 3, 4), (2, "FR,AR", 2, 3), (2, "AR,AR", 2, 3), (0, "F,A", 3, 4),
+         (2, "UR,FA", 2, 3), (1, "RA,RF", 2, 3), (2, "R,R,R", 2, 3)]
+
+
+def run_areas(ctx, binp):
+    pool = []
+    runs = 0
+    for pd, progs, pbq, pbt in AREAS:
+        pb = pbq if ctx.quick else pbt
+        hs, st = harness(ctx, binp, "areas", pd, progs, ["dfs", pb, 40000 if ctx.quick else 3000000])
+        runs += st.get("runs", 0)
+        ctx.extra.setdefault("areas_dfs", []).append({"pool": pd, "prog": progs, "preemption_bound": pb,
+                                                      "schedules": st.get("runs"), "distinct_traces": st.get("unique"),
+                                                      "complete_within_bound": st.get("complete")})
+        pool += [(h, "dfs pb=%d" % pb) for h in hs]
+        hs, st = harness(ctx, binp, "areas", pd, progs, ["random", 1000 if ctx.quick else 50000, ctx.seed, 4])
+        runs += st.get("runs", 0)
+        pool += [(h, "random") for h in hs]
+    ctx.evaluations += runs
+    ctx.extra["areas_schedules_run_on_real_code"] = runs
+    if not any(e["e"] == "Refused" for h, _ in pool for e in h):
+        raise vlib.ToolError("vacuity: no allocation was refused in mode areas")
+    # vacuity: a corrupted copy (a Return moved before the last Free of its area) must be rejected
+    fake = None
+    for h, _ in pool:
+        ret = [i for i, e in enumerate(h) if e["e"] == "Return"]
+        if ret and h[ret[0] - 1]["e"] == "Free":
+            fake = list(h)
+            fake[ret[0] - 1], fake[ret[0]] = fake[ret[0]], fake[ret[0] - 1]
+            break
+    hists = [h for h, _ in pool] + ([fake] if fake else [])
+    rej = ctx.validate_histories_1pass("Areas_Trace", "Areas_Trace.cfg", hists, tag="areas")
+    if fake:
+        ctx.traces -= 1
+        if not any(i == len(hists) - 1 for i, _, _ in rej):
+            raise vlib.ToolError("vacuity: an area returned before its last holder let go was accepted by Areas_Trace")
+        rej = [r for r in rej if r[0] != len(hists) - 1]
+    seen = set()
+    for idx, line, inv in rej:
+        h, source = pool[idx]
+        r0 = h[0]
+        ev = h[line - 1] if 0 < line <= len(h) else {}
+        key = "areas;pool=%d;prog=%s;%s" % (r0["pool"], r0["prog"], ev.get("e", "?"))
+        if key in seen:
+            continue
+        seen.add(key)
+        hs, _ = harness(ctx, binp, "areas", r0["pool"], r0["prog"], ["replay", r0["sched"]])
+        rej2 = ctx.validate_histories_1pass("Areas_Trace", "Areas_Trace.cfg", hs, tag="areasre") if hs else []
+        ctx.traces -= len(hs or [])
+        if not rej2:
+            raise vlib.ToolError("rejected trace did not reproduce: %s" % r0)
+        ctx.violation(key, "trace of the real ubuf_block_mem over several areas (pool depth %d, programs %s + epilogue) rejected at "
+                      "event %d %s: an area is not returned to its allocator exactly once, after its last holder let go"
+                      % (r0["pool"], r0["prog"], line, json.dumps(ev)),
+                      {"cmd": "sched_refcount areas %d %s replay %s" % (r0["pool"], r0["prog"], r0["sched"]), "trace": h, "source": source})
+
+
 def run(ctx):
     binp = ctx.cc("sched_refcount", SRC)
     ctx.assumptions += ["sequentially consistent atomics; interleaving at hook granularity (H1 atomics, H4 plain cb accesses)",
@@ -119,6 +178,7 @@ def run(ctx):
         ctx.violation(key, "reference-count trace of the real code rejected at event %d %s (mode %s, programs %s): destructor not exactly once after the last release"
                       % (line, json.dumps(ev), r0["mode"], r0["prog"]),
                       {"cmd": "sched_refcount %s %d %s replay %s" % (r0["mode"], r0["pool"], r0["prog"], r0["sched"]), "trace": h, "source": source})
+    run_areas(ctx, binp)
     ctx.trusted += ["harness/vsched.c", "TLC"]
 
 
